@@ -110,7 +110,7 @@ def run(ctx):
         nb = 16 if si % 2 == 0 else 32
         secret = rb(nb)
         mnemonic = MN.bytes_to_mnemonic(secret, nb * 8)
-        pw = rng.choice([b"", b"TREZOR", bytes([0xC3, 0xA9])])
+        pw = [b"", b"TREZOR", bytes([0xC3, 0xA9]), b"pw ", b" pw", b"pw\n", b"   ", b"a b"][si % 8] if si < 16 else rng.choice([b"", b"TREZOR", b"pw \t"])
         exp = 0 if (q or si % 5) else rng.choice([1, 2])
         stream = []
         orig = SH.randbits
